@@ -463,6 +463,7 @@ def _twins_plain():
     return lambda x: b(a(x)) + a(x)
 
 
+BUILDERS["named_io"] = lambda: _p("named_io", lambda x, y: (x + y, x * y), [(3, 4), (3, 4)], input_names=["lhs", "rhs"], output_names=["sum", "prod"])
 # float16 programs (narrower than the export's default float)
 BUILDERS["f16_elementwise"] = lambda: _p("f16_elementwise", lambda x, y: x * y + x, [(3, 4), (3, 4)], dtypes=[np.float16, np.float16])
 BUILDERS["f16_cast_chain"] = lambda: _p("f16_cast_chain", lambda x: (jnp.tanh(x.astype(jnp.float32)) * 2.0).astype(jnp.float16) + x, [(3, 4)], dtypes=[np.float16])
